@@ -207,7 +207,7 @@ def run(ctx):
             ctx.model_violation("Stewart protocol", r)
         if not expect_ok and "Sound" not in r.violated:
             ctx.machinery("the weakened protocol (no re-validation) did not violate Sound: the invariant is vacuous")
-    n_hist = ctx.pick(480, 20000)
+    n_hist = ctx.pick(480, 8000)
     n_ops = ctx.pick(15, 25)
     with ctx.timed("histories"):
         traces = pmap(history, [(i, ctx.seed * 999983 + i, n_ops) for i in range(n_hist)], timeout=1100)
